@@ -295,7 +295,7 @@ func runC18(pl *plan.Plan, out *plan.Outcome) {
 				env.Count("c18.collector_configured_by_host_name", 1)
 				c18RealCollector(env, where+fmt.Sprintf(" [collector configured as %s, listening on %s, certificate variant %d]", named, listen, variant), listen, 0, srv, false, z, ein, e, uint32(900+si))
 			case 5:
-				c18UnusableClientCA(env, where, addr, z, ein, uint32(900+si), int(n[3]))
+				c18UnusableClientCA(env, where, addr, z, ein, uint32(900+si), int(n[3]), n[2]&1 == 1 && n[1]%2 == 0)
 			case 4:
 				c18SharedCollector(env, where, addr, srvCerts[cert], cert, cliCA, day, v6, z, ein, op.F, uint32(900+si), cliCerts)
 			}
@@ -466,11 +466,11 @@ func c18RealCollector(env *Env, where, addr string, proto int, srv certPair, cli
 // but the setting holds no usable certificate. Such a collector cannot authenticate anybody, so
 // whatever the application does with it - here: Start, which fails, and Start again - it must not
 // deliver messages from any exporter.
-func c18UnusableClientCA(env *Env, where, addr string, z *zoo, ein exporter.ExporterInput, domain uint32, variant int) {
+func c18UnusableClientCA(env *Env, where, addr string, z *zoo, ein exporter.ExporterInput, domain uint32, variant int, keyMismatch bool) {
 	bad := [][]byte{{}, []byte("-----BEGIN CERTIFICATE-----\nMIIB\n-----END CERTIFICATE-----\n"), []byte("not a certificate")}[variant%3]
 	cin := collector.CollectorInput{Address: addr, Protocol: "tcp", MaxBufferSize: 65535, IsEncrypted: true,
 		ServerCert: z.SrvGood.CertPEM, ServerKey: z.SrvGood.KeyPEM, CACert: bad, TemplateTTL: 7200}
-	if variant%4 == 3 {
+	if keyMismatch {
 		// ... or whose private key does not belong to its certificate (the client CA is in order)
 		cin.CACert, cin.ServerKey = z.CA.PEM, z.SrvNameOnly.KeyPEM
 	}
